@@ -957,6 +957,64 @@ func gen(a Args, out *Out) {
 		emit("truncate", List(Int(11), Int(3), Int(0), Int(0), Bytes(w.b), Int(1), Int(0), Int(int64(len(w.b)))))
 	}
 
+	// 2c. every guard that relates two quantities of a frame, on both sides of its exact boundary and
+	// every residue in between, in frames with a VALID checksum (so that they reach UnmarshalPacket)
+	single := func(kind string, fmtc, cidx int, data []byte, expect int) {
+		emit(kind, List(Int(10), Int(int64(fmtc)), Int(int64(cidx)), Uint(rng.Next()&0xFFFFFFFF), Bytes(data), genSizes(rng), Int(2), Int(int64(expect))))
+	}
+	hdr := func() (byte, uint16, uint32, uint32) {
+		return byte(rng.Next()), uint16(rng.Next()), uint32(rng.Next()), uint32(rng.Next())
+	}
+	// reference count vs. payload length: 0 and 4r-4 .. 4r+1
+	for _, r := range []int{1, 2, 3, 255} {
+		for _, n := range []int{0, 4*r - 4, 4*r - 3, 4*r - 2, 4*r - 1, 4 * r, 4*r + 1} {
+			typ, seq, node, cmd := hdr()
+			exp := 0
+			if n < 4*r {
+				exp = 1
+			}
+			single("guard-refcount", 2, 0, craft(2, typ, byte(rng.PickInt(0, 0x20)), byte(r), seq, node, cmd, rng.Bytes(n), -1, false), exp)
+		}
+	}
+	for _, ver := range []int{1, 2} {
+		// error flag: a ten-byte varint cut after each byte, and over-long ones
+		full := []byte{0xff, 0xff, 0xff, 0xff, 0xff, 0xff, 0xff, 0xff, 0xff, 0x01, 0x80, 0x80, 0x01}
+		for k := 0; k <= len(full); k++ {
+			typ, seq, node, cmd := hdr()
+			single("guard-varint", ver, 0, craft(ver, typ, 0x10, 0, seq, node, cmd, full[:k], -1, false), 0)
+		}
+		// compressed flag: a valid zlib stream cut after 0..n bytes (only the whole one decodes)
+		w := &wbuf{}
+		pk := packet.Make()
+		pk.Body_ = GenBytes(uint32(rng.Next())|1, 40, 1)
+		NewEncoder(1, 8).WritePacket(w, nil, pk)
+		z := w.b[14:]
+		for k := 0; k <= len(z); k++ {
+			typ, seq, node, cmd := hdr()
+			exp := 1
+			if k == len(z) {
+				exp = 0
+			}
+			single("guard-zlib-prefix", ver, 0, craft(ver, typ, byte(0x01|rng.PickInt(0, 0x10)), 0, seq, node, cmd, z[:k], -1, false), exp)
+		}
+		// flags vs. body: every combination of the marshalling bits (and the error flag) on bodies of
+		// 0, 1, 2 bytes, without and with a decryptor
+		for _, fl := range []int{0, 1, 2, 3} {
+			for _, ef := range []int{0, 0x10} {
+				for n := 0; n <= 2; n++ {
+					for _, cidx := range []int{0, 1 + rng.Intn(len(CipherNames)-1)} {
+						typ, seq, node, cmd := hdr()
+						exp := 0
+						if (fl&2 != 0 && cidx == 0) || fl&1 != 0 {
+							exp = 1 // undecryptable; 0..2 bytes are never a zlib stream
+						}
+						single("guard-flags", ver, cidx, craft(ver, typ, byte(fl|ef), 0, seq, node, cmd, rng.Bytes(n), -1, false), exp)
+					}
+				}
+			}
+		}
+	}
+
 	// 3. single hostile streams
 	nsingle := 400
 	if thorough {
